@@ -49,7 +49,7 @@ Next ==
 Spec == Init /\ [][Next]_vars
 
 \* acceptance: every trace was matched to its end (register = number of events)
-Accepted == \A t \in 1..NT :
-               \/ TLCGet(t) = Len(Traces[t].ev)
-               \/ PrintT(<<"REJECTED", t, "matched", TLCGet(t), "of", Len(Traces[t].ev)>>) /\ FALSE
+Accepted == LET bad == {t \in 1..NT : TLCGet(t) # Len(Traces[t].ev)} IN
+            \/ bad = {}
+            \/ (\A t \in bad : PrintT(<<"REJECTED", t, "matched", TLCGet(t), "of", Len(Traces[t].ev)>>)) /\ FALSE
 =============================================================================
